@@ -136,9 +136,15 @@ def path_role(ctx, body, p, depth=0):
             return None
         pb, c = cs
         roles = []
-        for a in c.args:
+        std_adaptor = (c.name or "").startswith(("core::iter::Iterator::", "core::iter::traits::iterator::Iterator::", "core::option::Option::", "core::result::Result::"))
+        for i, a in enumerate(c.args):
             if ctx.closure_of_operand(pb, a) is body:
                 continue
+            if std_adaptor and len(c.args) > 2:
+                # fold(self, init, |acc, x| ..) and the like: the last parameter is the element and comes from the receiver; the
+                # others (the accumulator) come from the remaining arguments
+                if (root == body.arg_count) != (i == 0):
+                    continue
             roles.append(op_role(ctx, pb, a, depth + 1))
         return _join(roles)
     if 1 <= root <= body.arg_count:
